@@ -24,6 +24,7 @@ EXPLANATION = (
     ' Round 6: (10) after every parse_input call of the synchronous get_input that may leave bytes pending, _partial_codes is tested again before the function returns (the completion step is a loop).'
     ' (13) TAINT: text from the terminal reaches int() in escape.py only after an isascii() and isdigit() test of every field (fix 62201b6).'
     ' Round 7: (14) SIB: event-name words the decoder can put behind modifier words (mouse, meta) are looked for by containment; (15) the coordinates of an X10 mouse report are taken modulo 256.'
+    ' (16) PAIR: hook_event_loop() re-arms the completion timeout for bytes still pending after unhook_event_loop() removed the alarm.'
 )
 NOT_DECIDED = (
     "That event names/coordinates are the documented ones for every sequence; equality of event lists under all cuts for value-dependent recognisers "
@@ -679,6 +680,33 @@ def rule_x10_coordinates(ctx: Ctx) -> RuleResult:
     return rr
 
 
+def rule_rehook_rearms(ctx: Ctx) -> RuleResult:
+    """'when the timeout does expire the pending bytes are decoded as they stand rather than lost': the timeout is an
+    alarm on the event loop, and unhook_event_loop() removes it together with the input watches while the pending
+    bytes stay in _partial_codes.  MainLoop replaces the hooks whenever the input descriptors change, so
+    hook_event_loop() has to give pending bytes a timeout again: a test of _partial_codes whose true branch schedules
+    something on the event loop (fix for: lone ESC pending across a re-hook never times out)."""
+    p = ctx.p
+    rr = RuleResult("PAIR", "C05.16", "hook_event_loop() re-arms the completion timeout for bytes that are still pending (unhook_event_loop() removed the alarm but keeps the bytes)", floor=1)
+    cls = p.cls("urwid.display._posix_raw_display.Screen")
+    un, hk = cls.methods.get("unhook_event_loop"), cls.methods.get("hook_event_loop")
+    if un is None or hk is None:
+        raise AnalysisError("Screen.hook_event_loop / unhook_event_loop not found")
+    removes = any(isinstance(c, ast.Call) and callee_name(c) == "remove_alarm" for c in un.own_nodes())
+    clears = any(isinstance(n, ast.Assign) and any(isinstance(t, ast.Attribute) and t.attr == "_partial_codes" for t in n.targets) for n in un.own_nodes())
+    rr.inst("unhook_event_loop", True, {"removes_the_alarm": removes, "drops_the_pending_bytes": clears})
+    if not removes or clears:
+        return rr  # nothing is left behind without a timer
+    cfg = cfg_of(hk)
+    tests = [t for t in cfg.nodes if t.kind == "test" and any(isinstance(a, ast.Attribute) and a.attr == "_partial_codes" for a in ast.walk(t.ast))]
+    sched = nodes_where(cfg, lambda c: isinstance(c, ast.Call) and isinstance(c.func, ast.Attribute) and c.func.attr in ("alarm", "parse_input") and not isinstance(c.func.value, ast.Call))
+    ok = any(s_ in cfg.reachable_from_edges([(t, "T")]) for t in tests for s_ in sched)
+    rr.inst("hook_event_loop re-arms", True, {"tests_of_partial_codes": [norm(t.ast, 40) for t in tests], "schedules_under_it": ok})
+    if not ok:
+        rr.add(finding("PAIR", hk, hk.node, "unhook_event_loop() removes the completion alarm and keeps _partial_codes, but hook_event_loop() does not set a new timeout for bytes that are still pending: after MainLoop replaced its hooks (INPUT_DESCRIPTORS_CHANGED) a lone ESC never times out and is glued to the next key", construct="pending bytes lose their timeout across unhook / hook"))
+    return rr
+
+
 def run(ctx: Ctx):
     p = ctx.p
     out = [
@@ -707,6 +735,7 @@ def run(ctx: Ctx):
     out.append(rule_drain_eof(ctx))
     out.append(rule_digits_only(ctx))
     out.append(rule_x10_coordinates(ctx))
+    out.append(rule_rehook_rearms(ctx))
     from ..rules import nameprefix
 
     out.append(nameprefix.run_nameprefix(ctx.p, "C05.14", ("urwid.display", "urwid.util", "urwid.event_loop.main_loop"), floor=3))
@@ -718,6 +747,7 @@ from ..mutants import Mut  # noqa: E402
 _E = "urwid/display/escape.py"
 _R = "urwid/display/_raw_display_base.py"
 MUTANTS = [
+    Mut("rehook-forgets-pending-bytes", "urwid/display/_posix_raw_display.py", "urwid.display._posix_raw_display.Screen.hook_event_loop", "        if self._partial_codes:\n            # an incomplete sequence is still pending and unhook_event_loop() removed its completion alarm:\n            # parse again (with whatever arrived since), which sets a new alarm or decodes what is there\n            event_loop.alarm(0, wrapper)\n", "", "PAIR|display._posix_raw_display.Screen.hook_event_loop|pending bytes lose their timeout across unhook / hook"),
     Mut("x10-coordinates-without-modulo", _E, "KeyqueueTrie.read_mouse_info", "        x, y = (keys[1] - 33) % 256, (keys[2] - 33) % 256  # supports 0-255", "        x, y = keys[1] - 33, keys[2] - 33", "BOUND|display.escape.KeyqueueTrie.read_mouse_info|X10 coordinate x not modulo 256"),
     Mut("meta-fold-test-as-prefix", _E, "process_keyqueue", 'run[0].find("meta ") >= 0', 'run[0].startswith("meta ")', "SIB|display.escape.process_keyqueue|'meta' tested as a prefix"),
     Mut("sgr-mouse-fields-straight-to-int", "urwid/display/escape.py", "KeyqueueTrie.read_sgrmouse_info", "        if not all(field.isascii() and field.isdigit() for field in fields):\n            # int() would also take signs, blanks and underscores: not a known sequence\n            return None\n", "", "TAINT|display.escape.KeyqueueTrie.read_sgrmouse_info|terminal text to int() without digit test"),
